@@ -7,7 +7,7 @@ git apply "$d/patch.diff" || { echo "patch does not apply"; exit 2; }
 trap 'git -C /repo checkout -- . ; /verif/setup.sh >/dev/null 2>&1' EXIT
 cd /verif
 for c in "$@"; do
-  out=$(VERIF_SEED=${VERIF_SEED:-1} ./check "$c" --tier ${TIER:-quick} 2>&1)
+  out=$(VERIF_EVIDENCE_DIR=/tmp/verif-seeded-evidence VERIF_SEED=${VERIF_SEED:-1} ./check "$c" --tier ${TIER:-quick} 2>&1)
   rc=$?
   echo "== $c exit=$rc"
   echo "$out" | grep -E "^VIOLATION|^  what|^  key|^KNOWN|^INCONCL|^C[0-9]+ tier|HARNESS" | head -${LINES_MAX:-8}
